@@ -316,11 +316,19 @@ _sf("C13", "condition", ["mixed"],
     "C13 oracle: predicates are pure functions of harness flags and public object state; at each explicit signal the expected wake set is "
     "computed and must have left the wait by the end of the instant; a SUCCESS wake-up needs the predicate to have been true at some observed "
     "point of the instant; at every end of instant no waiter may remain whose predicate on an observed object is true (forwarded signals).")
+def _add_job(pid, job):
+    PROPS[pid]["jobs"].append(job)
+
+
 _sf("C14", "recording", ["mixed"],
-    ["c14_points_compared", "c14_state_changes_seen", "c14_recording_toggles", "c14_time_averages_compared", "c07_preemption_victims", "c09_ends_while_holding"],
+    ["c14_points_compared", "c14_state_changes_seen", "c14_recording_toggles", "c14_time_averages_compared", "c07_preemption_victims", "c09_ends_while_holding",
+     "directed_long_history_cases", "max_history_samples", "c14_points_on_histories_beyond_1024_samples"],
     {"c14_points_compared": 50000, "c14_state_changes_seen": 5000, "c14_time_averages_compared": 300},
     "C14 oracle: at every trace record and event boundary the last history sample of a recording object must equal its true state and times "
     "must not decrease; the time-weighted mean of a single recording window must equal the harness' own integral of the state.")
+
+_add_job("C14", J("sf-directed-long-histories", "simfuzz", "rel", 102, 24, 600, timeout=120, chunk=2))
+_add_job("C14", J("sf-directed-long-histories-asan", "simfuzz", "asan", 102, 4, 60, timeout=300, chunk=1))
 
 # ------------------------------------------------------------------ C10: every engine's corpus under sanitizers
 _VG = ["--wrapper", "valgrind -q --error-exitcode=9 --undef-value-errors=yes --track-origins=no --read-var-info=no"]
